@@ -261,6 +261,32 @@ func (s *gState) cycleFailing(i int) {
 	s.cycles["failing-calls"]++
 }
 
+// c14SharedParam is one header parameter set that every goroutine encodes from (a fan-out of one request):
+// Encode only reads it, so sharing it is legal, and the frames decode to its content.
+var c14SharedParam = ttheader.EncodeParam{Flags: 3, SeqID: 4242, ProtocolID: ttheader.ProtocolIDThriftBinary,
+	IntInfo: map[uint16]string{1: "one", 7: "seven", 900: "nine hundred"},
+	StrInfo: map[string]string{ttheader.GDPRToken: "shared-token", "k1": "v1", "k2": "v2", "isn": "svc"}}
+
+func (s *gState) cycleSharedHeaderParam(i int) {
+	ctx := context.Background()
+	buf, err := ttheader.EncodeToBytes(ctx, c14SharedParam)
+	if err != nil {
+		s.fail("concurrent-ttheader", i, "EncodeToBytes(shared parameters): %v", err)
+		return
+	}
+	runtime.Gosched()
+	d, err := ttheader.DecodeFromBytes(ctx, buf)
+	if err != nil || d.SeqID != 4242 || len(d.IntInfo) != 3 || len(d.StrInfo) != 4 || d.StrInfo[ttheader.GDPRToken] != "shared-token" || d.StrInfo["k2"] != "v2" || d.IntInfo[900] != "nine hundred" {
+		s.fail("concurrent-ttheader-bytes", i, "a frame encoded from parameters shared by all goroutines decodes to other content (err=%v, str=%v, int=%v)", err, d.StrInfo, d.IntInfo)
+		return
+	}
+	if len(c14SharedParam.StrInfo) != 4 || len(c14SharedParam.IntInfo) != 3 {
+		s.fail("concurrent-ttheader-bytes", i, "the shared parameter maps were changed by Encode")
+		return
+	}
+	s.cycles["shared-header-param"]++
+}
+
 func (s *gState) cycleTTHeader(i int) {
 	ctx := context.Background()
 	p := ttheader.EncodeParam{Flags: ttheader.HeaderFlags(s.g), SeqID: int32(i), ProtocolID: ttheader.ProtocolIDThriftBinary,
@@ -638,7 +664,9 @@ func monC14(c *drv.Ctx) {
 				// the very first action of every goroutine is a lookup on the freshly loaded maps
 				st.cycleSharedMaps(0, maps[st.g%len(maps)])
 				for i := 1; i <= g.iters && st.failure == nil; i++ {
-					switch st.r.Intn(10) {
+					switch st.r.Intn(11) {
+					case 10:
+						st.cycleSharedHeaderParam(i)
 					case 9:
 						st.cycleUnknownFields(i)
 					case 8:
